@@ -19,7 +19,7 @@ CHECKS = {
         text="Claims.tla holds the declarative acceptance predicate (layer D) and the code-shaped decision procedure (layer O). TLC proves O |= D "
              "over ~100k cases (8 claim names x 27 JSON values incl. the now+-leeway boundary ticks x 109 request options x 3 leeways, plus pairs of "
              "claims for error priority) and refutes six named deviations; every exported case is executed against the real registry under several "
-             "epochs, int/float spellings and now=None, and its error class must lie in the set TLC computed.",
+             "epochs, int/float spellings and now=None, and its error class must lie in the set TLC computed. ClaimsClasses.tla adds histories over registry objects of different classes in one process (a fresh process per history).",
         note="Trusted: TLC, the concretisation of abstract values (ticks -> epoch seconds). Don't-care corners listed in evidence.assumptions."),
     "C05": dict(
         cat="model_checking", ref="DESIGN.md section 6 (C05)",
@@ -54,7 +54,7 @@ CHECKS = {
              "carries it, unknown kid => invalid-key-id, no kid only for singleton sets' over ~83k scenarios and refutes five deviations. Each scenario runs "
              "on the real library (random picks repeated): the recorded kid must belong to a candidate TLC computed, the token must verify under refimpl with "
              "that key alone and under joserfc with the public key set; consume-side tokens are refimpl forgeries signed by a chosen member of the set. "
-             "Every key set is also imported and exported and compared member by member.",
+             "Every key set is also imported and exported and compared member by member. PickTable.tla walks every row of the table behind the random pick (one row per JWS / JWE algorithm name) over histories of calls, one process per history.",
         note="Trusted: TLC, refimpl, key pool. Quick tier runs a seeded quarter of the scenarios."),
     "C01": dict(
         cat="model_checking", ref="DESIGN.md section 6 (C01)",
@@ -63,7 +63,7 @@ CHECKS = {
              "serialization shape, and a verifier shaped like the code (per-entry header check, b64 mode, signature check over the received octets, conclusion). "
              "TLC checks AuthOnly (>=1 signature, all valid over the received octets, returned payload = signed payload, b64=false only when protected) on "
              "every reachable verdict, refutes seven deviations, and exports ~10k behaviours with the intended verdict. Each is executed for 15 algorithm/key "
-             "pairs: quick = one concrete edit per abstract edit, thorough = every bit of every decoded segment and every truncation length.",
+             "pairs: quick = one concrete edit per abstract edit, thorough = every bit of every decoded segment and every truncation length. Further models bound the same way: JwsInFlight.tla (several parsed tokens in flight), JwsNoProtected.tla (header entirely unprotected), JwsMemberKeys.tla (general JSON: every member verified under the key resolved for that member - key, key set, callables), and signatures made by the right key under a sibling algorithm (S4).",
         note="Trusted: ideal cryptography in the model (unforgeability of primitives), TLC, refimpl. One open known finding (F2, unprotected b64 on rfc7797.deserialize_json)."),
     "C03": dict(
         cat="model_checking", ref="DESIGN.md section 6 (C03)",
@@ -113,7 +113,7 @@ CHECKS = {
              "11 payload classes x tampered x library/forged and refutes five deviations. Every scenario runs over 6 JWS and 5 JWE algorithm choices: object "
              "payloads are generated claim sets (unicode, nesting, integers to 10^30, float extremes, aware/naive datetimes) compared as JSON after decode; "
              "arrays, strings, numbers, true/false/null, non-JSON, empty and non-UTF-8 payloads are signed or encrypted by refimpl and must yield the "
-             "invalid-payload error; tampered tokens must fail the integrity check first.",
+             "invalid-payload error; tampered tokens must fail the integrity check first. The key argument of decode (a key or a key set holding it) is modelled separately from that of encode: the header handed back is the one on the wire.",
         note="Trusted: TLC, refimpl, the claim generator. Claim sets are seeded samples."),
     "C17": dict(
         cat="model_checking", ref="DESIGN.md section 6 (C17)",
@@ -124,7 +124,7 @@ CHECKS = {
              "x constant/periodic/random data x raw/zlib framing x encs x serializations as refimpl-authenticated JWEs, and 64 MiB (512 MiB thorough) bombs "
              "whose decryption must raise exceeded-size within a traced-memory bound. DeflateShared.tla states that two decompress calls through the one shared "
              "DEF model each decide as in isolation (refuting inflater state kept on the model); the line-granular scheduler runs pairs of zip decryptions "
-             "within and beyond the limit under every one-preemption schedule.",
+             "within and beyond the limit under every one-preemption schedule. ZipHistory.tla adds histories of one consumer (tokens with byte-identical headers, caller edits of returned header objects in between; a fresh process per history); every content encryption and key-management algorithm meets the limit from both sides.",
         note="Trusted: TLC, zlib as primitive, tracemalloc as memory observer (Python allocations only)."),
     "C16": dict(
         cat="model_checking", ref="DESIGN.md section 6 (C16)",
@@ -153,7 +153,7 @@ CHECKS = {
              "parameter of the key as member name and as octets in raw, hex, decimal, base64 and base64url form at three alignments; tokens of all 15 JWS and 21 "
              "JWE algorithms (compact and JSON, epk included) are scanned as well. JwkHeap.tla follows which dictionary object holds which private member "
              "when two keys are built over caller-owned parameter dictionaries (build / first use / public export / key-set export histories, refuting a view "
-             "built inside the caller's dictionary); its behaviours are replayed on real keys with the predicted leaked-member set compared at every export.",
+             "built inside the caller's dictionary); its behaviours are replayed on real keys with the predicted leaked-member set compared at every export. JweReuse.tla histories (an encryption object encrypted again, an ephemeral key pinned by the caller) are replayed too: the epk of every produced token carries public members only.",
         note="Trusted: the scanner's encodings; parameters shorter than 8 octets are not searched. Timing/error-message leakage not decided."),
     "C13": dict(
         cat="model_checking", ref="DESIGN.md section 6 (C13)",
@@ -181,7 +181,7 @@ CHECKS = {
              "every pair of 15 operations on fresh shared objects under every one-preemption schedule (every line for pairs of cryptographic operations) plus "
              "sampled two-preemption schedules; each call is compared with isolation, produced tokens are verified/decrypted by refimpl, IVs must differ and an "
              "observed kid must stay. Recorded executions (projection of the real key object after every source line: which dict object the view is bound to, "
-             "filled?, kid?) are validated by TLC against Shared.tla (TraceShared.tla; a trace that rebinds the view is shown to be rejected). SharedSeq.tla histories are executed against fresh clones; 16-32 thread stress runs at a 1 microsecond switch interval.",
+             "filled?, kid?) are validated by TLC against Shared.tla (TraceShared.tla; a trace that rebinds the view is shown to be rejected). SharedSeq.tla histories are executed against fresh clones; 16-32 thread stress runs at a 1 microsecond switch interval. PickTable.tla histories check that class-level tables serve the second call of a process as they serve the first.",
         note="Trusted: TLC, CPython's GIL semantics at line granularity, refimpl. Bytecode-level and C-level races are not decided."),
 }
 
